@@ -22,9 +22,22 @@ from harness.common import blit
 
 HEADER = "From Precond Require Import C03.FloatCls C03.Model.\nOpen Scope Z_scope.\n"
 PROPS = ["Properties/C03.v"]
-NAMES = ["v", "w"]
-SIZES = {"v": 2, "w": 12}
-STATS = ["v[0] 2x2", "w[0] 3x3", "w[1] 4x4"]
+# parameter trees.  "main": statistics 1x1 (padded to 4x4), 2x2, 3x3, 4x4, and -- through x:(1,3)
+# with best_effort_shape_interpretation=False -- a 1x1 next to a 3x3 of the same parameter.
+# "unit": a lone u:(1,), the only way to reach the scalar (matrix_size == 1) branch of
+# matrix_inverse_pth_root, because statistics are padded to the largest one of the tree.
+TREES = {"main": ["u", "v", "w", "x"], "unit": ["u"]}
+SIZES = {"u": 1, "v": 2, "w": 12, "x": 3}
+STAT_LABELS = {"u": ["u[0] 1x1"], "v": ["v[0] 2x2"], "w": ["w[0] 3x3", "w[1] 4x4"],
+               "x": ["x[0] 1x1", "x[1] 3x3"]}
+
+
+def names_of(grads):
+  return sorted(grads[0].keys())
+
+
+def stat_labels(names):
+  return [l for k in names for l in STAT_LABELS[k]]
 KINDS = ["nan", "inf", "-inf", "zero", "1e12", "-1e12", "1e30", "-1e30", "1e-12", "1e-30"]
 THRS = [0.0, 1e-30, 0.1, 1e30]
 EPSS = [0.0, 1e-6]
@@ -64,12 +77,12 @@ def fv_lit(x):
 # ----------------------------------------------------------------------------------------------
 # generation of fault-injected histories
 # ----------------------------------------------------------------------------------------------
-def base_grad(rng, scale):
-  return {k: [f32(rng.normal() * scale) for _ in range(SIZES[k])] for k in NAMES}
+def base_grad(rng, scale, names):
+  return {k: [f32(rng.normal() * scale) for _ in range(SIZES[k])] for k in names}
 
 
-def fault_grad(rng, kind, scope, scale):
-  g = base_grad(rng, scale)
+def fault_grad(rng, kind, scope, scale, names):
+  g = base_grad(rng, scale, names)
   if kind in ("nan", "inf", "-inf"):
     val = kind
   elif kind == "zero":
@@ -77,19 +90,19 @@ def fault_grad(rng, kind, scope, scale):
   else:
     val = float(kind)
   if scope == "whole" or kind == "zero":
-    for k in NAMES:
+    for k in names:
       if isinstance(val, str) or val == 0.0:
         g[k] = [val] * SIZES[k]
       else:
         g[k] = [f32(val * (1.0 if rng.below(2) else -1.0)) for _ in range(SIZES[k])]
   else:
-    k = "w" if rng.below(4) else "v"
+    k = rng.choice(names)
     i = rng.below(SIZES[k])
     g[k][i] = val if isinstance(val, str) else f32(val)
   return g
 
 
-def gen_history(rng, T, positions=None):
+def gen_history(rng, T, names, positions=None):
   scale = rng.choice([1e-2, 1.0, 1.0, 10.0])
   if positions is None:
     nf = rng.choice([0, 1, 1, 2, 2, 3, 3])
@@ -101,33 +114,34 @@ def gen_history(rng, T, positions=None):
       kind = rng.choice(KINDS)
       scope = rng.choice(["entry", "whole"])
       faults[t] = "%s/%s" % (kind, scope)
-      grads.append(fault_grad(rng, kind, scope, scale))
+      grads.append(fault_grad(rng, kind, scope, scale, names))
     else:
-      grads.append(base_grad(rng, scale))
+      grads.append(base_grad(rng, scale, names))
   return dict(grads=grads, faults=faults, scale=scale)
 
 
-def structured_histories(rng):
+def structured_histories(rng, names):
   """always-run histories aimed at the corners of the gate (error == threshold, NaN error,
   faults on refresh and on non-refresh steps, overflow and underflow of the statistics)."""
   hs = []
-  z = {k: [0.0] * SIZES[k] for k in NAMES}
-  b = lambda: base_grad(rng, 1.0)
+  z = {k: [0.0] * SIZES[k] for k in names}
+  b = lambda: base_grad(rng, 1.0, names)
+  fg = lambda r, kind, scope, sc: fault_grad(r, kind, scope, sc, names)
   hs.append(dict(grads=[z, z, z, z], faults={t: "zero/whole" for t in range(4)}, tag="all-zero"))
-  hs.append(dict(grads=[b(), fault_grad(rng, "nan", "entry", 1.0), b(), b(), b()],
+  hs.append(dict(grads=[b(), fg(rng, "nan", "entry", 1.0), b(), b(), b()],
                  faults={1: "nan/entry"}, tag="nan@1"))
-  hs.append(dict(grads=[fault_grad(rng, "inf", "whole", 1.0), b(), b(), b()],
+  hs.append(dict(grads=[fg(rng, "inf", "whole", 1.0), b(), b(), b()],
                  faults={0: "inf/whole"}, tag="inf@0"))
   hs.append(dict(grads=[z, z, b(), z, b()], faults={0: "zero/whole", 1: "zero/whole", 3: "zero/whole"},
                  tag="zero,zero,base,zero"))
-  hs.append(dict(grads=[fault_grad(rng, "1e12", "whole", 1.0), fault_grad(rng, "1e-12", "whole", 1.0),
+  hs.append(dict(grads=[fg(rng, "1e12", "whole", 1.0), fg(rng, "1e-12", "whole", 1.0),
                         b(), b()], faults={0: "1e12/whole", 1: "1e-12/whole"}, tag="1e12,1e-12"))
-  hs.append(dict(grads=[b(), b(), fault_grad(rng, "1e30", "whole", 1.0), b(), b(), b()],
+  hs.append(dict(grads=[b(), b(), fg(rng, "1e30", "whole", 1.0), b(), b(), b()],
                  faults={2: "1e30/whole"}, tag="1e30@2"))
-  hs.append(dict(grads=[b(), b(), b(), fault_grad(rng, "nan", "whole", 1.0), b(), b()],
+  hs.append(dict(grads=[b(), b(), b(), fg(rng, "nan", "whole", 1.0), b(), b()],
                  faults={3: "nan/whole"}, tag="nan@3"))
   hs.append(dict(grads=[b(), b(), b(), b(), b(), b()], faults={}, tag="clean"))
-  hs.append(dict(grads=[fault_grad(rng, "1e-30", "whole", 1.0), fault_grad(rng, "-inf", "entry", 1.0),
+  hs.append(dict(grads=[fg(rng, "1e-30", "whole", 1.0), fg(rng, "-inf", "entry", 1.0),
                         b(), b()], faults={0: "1e-30/whole", 1: "-inf/entry"}, tag="1e-30,-inf"))
   return hs
 
@@ -136,29 +150,35 @@ def gen_groups(ctx):
   rng = ctx.rng
   quick = ctx.tier == "quick"
   T = 6 if quick else 8
-  pool = [gen_history(rng, rng.rint(4, 6) if quick else rng.rint(5, 8)) for _ in range(300 if quick else 900)]
-  per_group = 10 if quick else 24
   groups = []
   gid = 0
-  for k, (mode, thr, eps, eigh, pcs) in enumerate(
-      itertools.product(MODES, THRS, EPSS, [False, True], [1, 2])):
-    if quick and mode == "pmapq" and ((k // 2) + pcs) % 2 == 0:
-      # pmap compilation dominates the quick tier: each (thr, eps, eigh) gets ONE of pcs=1,2
-      # (alternating); the thorough tier runs the full product
-      continue
-    cfg = dict(mode=mode, thr=thr, eps=eps, eigh=eigh, pcs=pcs,
-               beta2=rng.choice([1.0, 0.999]), graft=rng.choice(["SGD", "RMSPROP_NORMALIZED"]))
-    hs = structured_histories(rng)
-    hs += [pool[rng.below(len(pool))] for _ in range(per_group)]
-    if not quick:
-      # every subset of <= 3 of the 8 step positions (fault kinds drawn per position)
-      for r in range(0, 4):
-        for pos in itertools.combinations(range(T), r):
-          hs.append(gen_history(rng, T, positions=list(pos)))
-    groups.append(dict(gid=gid, cfg=cfg,
-                       histories=[dict(hid=i, grads=h["grads"], faults=h.get("faults", {}),
-                                       tag=h.get("tag", "random")) for i, h in enumerate(hs)]))
-    gid += 1
+  for tree in ("main", "unit"):
+    names = TREES[tree]
+    pool = [gen_history(rng, rng.rint(4, 6) if quick else rng.rint(5, 8), names)
+            for _ in range((300 if tree == "main" else 100) if quick else 900)]
+    if tree == "main":
+      per_group = 10 if quick else 24
+    else:
+      per_group = 5 if quick else 16
+    for k, (mode, thr, eps, eigh, pcs) in enumerate(
+        itertools.product(MODES, THRS, EPSS, [False, True], [1, 2])):
+      if quick and (mode == "pmapq" or tree == "unit") and ((k // 2) + pcs) % 2 == 0:
+        # compilation dominates the quick tier: pmap configurations and the lone-1x1 tree get ONE
+        # of pcs=1,2 per (thr, eps, kernel), alternating; the thorough tier runs the full product
+        continue
+      cfg = dict(mode=mode, thr=thr, eps=eps, eigh=eigh, pcs=pcs, tree=tree,
+                 beta2=rng.choice([1.0, 0.999]), graft=rng.choice(["SGD", "RMSPROP_NORMALIZED"]))
+      hs = structured_histories(rng, names)
+      hs += [pool[rng.below(len(pool))] for _ in range(per_group)]
+      if not quick:
+        # every subset of <= 3 of the 8 step positions (fault kinds drawn per position)
+        for r in range(0, 4):
+          for pos in itertools.combinations(range(T), r):
+            hs.append(gen_history(rng, T, names, positions=list(pos)))
+      groups.append(dict(gid=gid, cfg=cfg,
+                         histories=[dict(hid=i, grads=h["grads"], faults=h.get("faults", {}),
+                                         tag=h.get("tag", "random")) for i, h in enumerate(hs)]))
+      gid += 1
   return groups
 
 
@@ -198,7 +218,7 @@ def run_groups(groups):
 
 
 def moderate(g):
-  for k in NAMES:
+  for k in g:
     for x in g[k]:
       x = dec(x)
       if x != x or abs(x) == float("inf"):
@@ -269,6 +289,8 @@ def evaluate(ctx, groups, results, tag="corr"):
   for (g, h, hres), v in zip(where, vals):
     cfg = g["cfg"]
     mode = cfg["mode"]
+    STATS = stat_labels(names_of(h["grads"]))
+    ctx.count("histories tree=%s" % "+".join(names_of(h["grads"])))
     codes = parse_codes(v)
     inp = dict(cfg=cfg, grads=h["grads"], faults=h.get("faults"), tag=h.get("tag"))
     ctx.count("histories mode=%s" % mode)
@@ -453,7 +475,10 @@ def run(ctx):
       "(all-zero, NaN/Inf on refresh and non-refresh steps, 1e12/1e-12/1e30/1e-30 whole gradients) + "
       "random histories of length 4..6 (thorough: + every subset of <=3 of 8 steps) with a fault "
       "(NaN, +-Inf, 0, +-1e12, +-1e30, 1e-12, 1e-30; one entry or whole gradient) at a random subset "
-      "of <=3 positions, on params v:(2,), w:(3,4) (statistics 2x2, 3x3, 4x4).  A history is "
+      "of <=3 positions, on two parameter trees: main = u:(1,), v:(2,), w:(3,4), x:(1,3) with "
+      "best_effort_shape_interpretation=False (statistics 1x1, 2x2, 3x3, 4x4 and a 1x1 next to a "
+      "3x3, all padded to 4x4) and unit = a lone u:(1,) (the scalar branch of "
+      "matrix_inverse_pth_root; quick tier: one of pcs=1,2 per configuration).  A history is "
       "distinct by configuration+gradients and non-trivial when it contains at least one fault")
   ctx.assumptions += [
       "Coq 8.16.1 kernel + vm_compute",
